@@ -9,7 +9,7 @@ def c11_pqnr_lbfgs_assert(fam, case, verdict):
     """Only: algorithm pqnr, the call raised (did not return) and the exception message is the
     fatal L-BFGS assertion of tt_cp_apr_pqnr."""
     what = getattr(verdict, "what", "") or ""
-    if fam not in ("runs", "validation"):
+    if fam not in ("runs", "validation", "longruns"):
         return False
     if case is not None and case.get("alg") != "pqnr":
         return False
